@@ -22,7 +22,7 @@ VARIABLES l, cur, eng, ref, cmpok, viol, stat, calib
 vars == <<l, cur, eng, ref, cmpok, viol, stat, calib>>
 
 None == [kind |-> "none", err |-> "", series |-> <<>>]
-Stat0 == [sc |-> 0, structural |-> 0, calibrated |-> 0, calibmiss |-> 0, specerr |-> 0, skipped |-> 0, dead |-> 0]
+Stat0 == [sc |-> 0, structural |-> 0, calibrated |-> 0, calibmiss |-> 0, specerr |-> 0, skipped |-> 0, dead |-> 0, tie |-> 0]
 
 Init == /\ l = 1 /\ cur = [id |-> ""] /\ eng = None /\ ref = None /\ cmpok = [equal |-> TRUE, what |-> "", shape |-> ""]
         /\ viol = {} /\ stat = Stat0 /\ calib = {}
@@ -122,6 +122,7 @@ EndEv ==
          done == eng.kind # "none" \/ eng.err # ""
          gr == GridRes(sc)
          structural == sc.spec /\ ~AnyUnk(gr)
+         tie == sc.spec /\ AnyTie(sc)
          refok == structural /\ AgreesWithSpec(sc, gr, ref)
          engok == AgreesWithSpec(sc, gr, eng)
          \* the detail names the reasons for which the reference fails the query (all error steps)
@@ -129,7 +130,7 @@ EndEv ==
          Cat(q) == IF Len(q) = 0 THEN "" ELSE IF Len(q) = 1 THEN q[1] ELSE q[1] \o "," \o Cat(Tail(q))
          whytxt == IF structural THEN "why=" \o Cat(SetToSortSeq(Whys(gr), LAMBDA a, b : TRUE)) ELSE "why=?"
          v2 == IF refok /\ ~engok THEN {<<sc.id, "EngEqualsSpec", whytxt>>} ELSE {}
-         v1 == IF cmpok.equal THEN {} ELSE {<<sc.id, "EngEqualsRef", cmpok.what \o ":" \o cmpok.shape \o " " \o whytxt>>}
+         v1 == IF cmpok.equal \/ tie THEN {} ELSE {<<sc.id, "EngEqualsRef", cmpok.what \o ":" \o cmpok.shape \o " " \o whytxt>>}
          v3 == IF eng.err = "" THEN {<<sc.id, c, "">> : c \in WFClauses(sc, eng)} ELSE {}
      IN IF ~done THEN UNCHANGED <<viol, stat, calib>>
         ELSE /\ viol' = viol \cup v1 \cup v2 \cup v3
@@ -137,7 +138,8 @@ EndEv ==
              /\ stat' = [stat EXCEPT !.structural = @ + (IF structural THEN 1 ELSE 0),
                                      !.calibrated = @ + (IF refok THEN 1 ELSE 0),
                                      !.calibmiss = @ + (IF structural /\ ~refok THEN 1 ELSE 0),
-                                     !.specerr = @ + (IF structural /\ AnyErr(gr) THEN 1 ELSE 0)]
+                                     !.specerr = @ + (IF structural /\ AnyErr(gr) THEN 1 ELSE 0),
+                                     !.tie = @ + (IF tie THEN 1 ELSE 0)]
   /\ UNCHANGED <<cur, eng, ref, cmpok>>
 
 \* any other event kind (operator events are StreamTrace's business) is consumed silently
